@@ -155,6 +155,57 @@ OBSERVE_RULE = ("TLC explores every history of register / deregister / notificat
                 "and the notification builder are recorded and validated step by step by Trace_Observe. A case is one emitted "
                 "transition (distinct history) or one recorded episode.")
 
+# ------------------------------------------------------------------------------ C16-C18 link format
+def _link_trace(ctx, what, props, bins):
+    for b in bins:
+        tr, info = ctx.record(b, "link", name="link-%s-%s" % (what, os.path.basename(b)), what=what)
+        if info.get("swept_native"):
+            ctx.extra["swept_native_not_validated"] = ctx.extra.get("swept_native_not_validated", 0) + int(info["swept_native"])
+            ctx.extra["forwarded_to_tlc"] = ctx.extra.get("forwarded_to_tlc", 0) + int(info.get("forwarded", 0))
+        ctx.validate("Trace_LinkFormat", tr, props, label="link-%s-%s" % (what, os.path.basename(b)))
+        rm(tr)
+
+
+def c16(ctx):
+    dev, rel = ctx.build("dev"), ctx.build("release")
+    modes = ["value", "struct"] + (["value3"] if ctx.thorough else [])
+    for mode in modes:
+        out = ctx.path("lw_%s.nd" % mode)
+        ctx.model_check("MC_LinkWrite", env={"MODE": mode, "OUT": out}, workers=8, timeout=900)
+        for b in (dev, rel):
+            ctx.replay(b, "linkwrite", out, {"C16"}, label="linkwrite-%s-%s" % (mode, os.path.basename(b)))
+        rm(out)
+    _link_trace(ctx, "roundtrip", {"C16"}, (dev, rel))
+
+
+def c17(ctx):
+    dev, rel = ctx.build("dev"), ctx.build("release")
+    out = ctx.path("lp.nd")
+    ctx.model_check("MC_LinkParse", env={"DEPTH": 6 if ctx.thorough else 5, "OUT": out}, workers=8, timeout=1500)
+    for b in (dev, rel):
+        ctx.replay(b, "linkparse", out, {"C17"}, label="linkparse-" + os.path.basename(b))
+    rm(out)
+    _link_trace(ctx, "parse", {"C17"}, (dev, rel))
+
+
+def c18(ctx):
+    dev, rel = ctx.build("dev"), ctx.build("release")
+    for mode in ["fault"] + (["struct"] if ctx.thorough else []):
+        out = ctx.path("lw_%s.nd" % mode)
+        ctx.model_check("MC_LinkWrite", env={"MODE": mode, "OUT": out}, workers=8, timeout=900)
+        for b in (dev, rel):
+            ctx.replay(b, "linkfault", out, {"C18"}, label="linkfault-%s-%s" % (mode, os.path.basename(b)))
+        rm(out)
+    _link_trace(ctx, "fault", {"C18"}, (dev, rel))
+
+
+LINK_RULE = ("TLC explores the writer state machine call by call (documents grown link by link / attribute by attribute over "
+             "structural alphabets, every fault position and mode of the sink) and all strings over the 10-letter structural "
+             "alphabet up to the depth bound, checking the round trip, the writer fault properties and the iterator predicates "
+             "in every state; every emitted document / string is replayed into the real writer and parsers; recorded runs "
+             "(random documents, every prefix, random strings over a wide alphabet, every sink fault position per document) "
+             "are judged by Trace_LinkFormat. A case is one emitted document/string or one recorded run.")
+
 TABLE_RULE = ("TLC evaluates the specification operator over the whole finite domain (one state per table key), checks the "
               "round-trip / well-formedness theorems in every state and emits the complete expected table; every row is "
               "compared with the real code in dev and release builds. A case is one table row; rows are distinct by key.")
@@ -173,6 +224,9 @@ CHECKS = {
     "C05": (c05, {"rule": TABLE_RULE}),
     "C06": (c06, {"rule": TABLE_RULE + " Typed getters/setters on a message are additionally recorded after random typed builder calls and validated by Trace_Wire element by element."}),
     "C13": (c13, {"rule": TABLE_RULE}),
+    "C16": (c16, {"rule": LINK_RULE}),
+    "C17": (c17, {"rule": LINK_RULE}),
+    "C18": (c18, {"rule": LINK_RULE}),
     "C14": (c14, {"rule": OBSERVE_RULE}),
     "C15": (c15, {"rule": OBSERVE_RULE}),
 }
